@@ -27,7 +27,7 @@ std::string primary_property(const std::string &profile) {
     if (profile == "leak" || profile == "symleak") return "C17";
     if (profile == "carry") return "C18";
     if (profile == "pipe") return "C03";
-    if (profile == "term") return "C04";
+    if (profile == "term" || profile == "forest") return "C04";
     if (profile == "mem") return "C05";
     return "C01";
 }
@@ -760,6 +760,14 @@ Outcome run_case(Case &c, const RunnerOpts &ro) {
 
         if (op.kind == OP_GSSV || op.kind == OP_ROUTE || (op.kind == OP_GSSVX && op.x.fact != 2 && op.x.lwork != -1))
             last_fact_ok = (info == 0) || (op.kind == OP_GSSVX && info == n + 1);
+        if (c.profile == "forest" && info == 0 && (int)drv.get_etree().size() == n) {
+            // the enumeration is over elimination forests: confirm that the library worked on the intended one
+            std::vector<long> et = drv.get_etree(); bool same = (int)et.size() == n;
+            for (int j = 0; same && j < n; ++j) same = et[j] == c.tags["forest_parent_" + std::to_string(j)];
+            out.probes[same ? "forest_etree_as_intended" : "forest_etree_other_numbering"]++;
+            out.probes["forest_n" + std::to_string(n)]++;
+            { std::string code = "fshape:" + std::to_string(n) + ":"; for (long v : et) code += (char)('0' + (int)v); out.probes[code]++; }
+        }
         // ---- oracles
         bool a_same = drv.A_hash() == a_hash0;
         bool histlike = c.profile == "hist" || c.profile == "leak" || c.profile == "carry";
